@@ -161,18 +161,26 @@ def leanchecker(mods):
 
 
 _driver_built = False
+DRIVER_FALLBACK = None      # set to the build log when the full driver did not build and `svmodel_core` is used instead
 
 
 def lean_driver():
-    """Build (if needed) and return the path of the model driver executable."""
-    global _driver_built
+    """Build (if needed) and return the path of the model driver executable. When a file regenerated from the Rust source
+    (Extracted/*Fns.lean) no longer builds, the fallback driver without the operations that run regenerated functions is used, so
+    that the hand-written model can still be run next to the code in the search for a concrete failing input."""
+    global _driver_built, DRIVER_FALLBACK
     exe = os.path.join(LEAN, ".lake", "build", "bin", "svmodel")
+    core = os.path.join(LEAN, ".lake", "build", "bin", "svmodel_core")
     if not _driver_built:
         p = sh(["lake", "build", "svmodel"], cwd=LEAN, timeout=1800)
         if p.returncode != 0:
-            raise RuntimeError("model driver failed to build:\n" + (p.stdout + p.stderr)[-6000:])
+            log = (p.stdout + p.stderr)[-6000:]
+            q = sh(["lake", "build", "svmodel_core"], cwd=LEAN, timeout=1800)
+            if q.returncode != 0:
+                raise RuntimeError("model driver failed to build:\n" + log)
+            DRIVER_FALLBACK = log
         _driver_built = True
-    return exe
+    return core if DRIVER_FALLBACK is not None else exe
 
 
 def run_driver(lines, timeout=3600):
